@@ -1,6 +1,8 @@
 package unpack
 
 import (
+	"fmt"
+
 	ucfg "github.com/elastic/go-ucfg"
 
 	"harness/sim"
@@ -52,7 +54,10 @@ func inlineValidatorCase(r *sim.R, prop string) {
 	t := r.T
 	e := &E{R: r, Prop: prop}
 	opts := []ucfg.Option{ucfg.PathSep(".")}
-	switch t.Choose(4, "validator-side-case") {
+	switch t.Choose(5, "validator-side-case") {
+	case 4:
+		keptEntriesCase(r, e, opts)
+		return
 	case 1:
 		smallBufferCase(r, e, opts)
 		return
@@ -351,5 +356,77 @@ func validatorTagCase(r *sim.R, e *E, opts []ucfg.Option) {
 				"Unpack of %v under the validator tag %q returned %v; the validators of that tag (validate: n max=4; apicheck: n max=64, s required) say error=%v", in, name, err, wantErr)
 			return
 		}
+	}
+}
+
+// Entries a pre-filled map holds and the configuration does not mention stay in the result and
+// have to be valid - however many other settings (nulls among them, which store nothing into a
+// map of interface{} values) the configuration has for the map.
+type keGeneric struct {
+	M map[string]interface{} `config:"m"`
+}
+
+type keTyped struct {
+	M map[string]*SBInner `config:"m"`
+}
+
+func keptEntriesCase(r *sim.R, e *E, opts []ucfg.Option) {
+	t := r.T
+	r.Probe("unpack: pre-filled map entries the configuration does not mention, next to null settings")
+	nKept := 1 + t.Choose(2, "kept-entries")
+	bad := -1
+	if t.Chance(2, 3, "invalid-entry") {
+		bad = t.Choose(nKept, "invalid-at")
+	}
+	nNull := t.Choose(4, "null-settings")
+	nSet := t.Choose(2, "other-settings")
+	m := map[string]interface{}{}
+	for i := 0; i < nNull; i++ {
+		m[fmt.Sprintf("gone%d", i)] = nil
+	}
+	for i := 0; i < nSet; i++ {
+		m[fmt.Sprintf("new%d", i)] = map[string]interface{}{"n": uint64(3)}
+	}
+	in := map[string]interface{}{}
+	if len(m) > 0 || t.Bool("mention-empty-map") {
+		in["m"] = m
+	}
+	cfg, err := ucfg.NewFrom(in, opts...)
+	if err != nil {
+		panic("harness: kept entries config: " + err.Error())
+	}
+	typed := t.Bool("typed-map")
+	if typed {
+		to := keTyped{M: map[string]*SBInner{}}
+		for i := 0; i < nKept; i++ {
+			to.M[fmt.Sprintf("kept%d", i)] = &SBInner{N: 1 + i}
+		}
+		if bad >= 0 {
+			to.M[fmt.Sprintf("kept%d", bad)].N = 0
+		}
+		r.MustComplete("Unpack", func() { err = cfg.Unpack(&to, opts...) })
+	} else {
+		to := keGeneric{M: map[string]interface{}{}}
+		for i := 0; i < nKept; i++ {
+			v := &SBInner{N: 1 + i}
+			if i == bad {
+				v.N = 0
+			}
+			to.M[fmt.Sprintf("kept%d", i)] = v
+		}
+		r.MustComplete("Unpack", func() { err = cfg.Unpack(&to, opts...) })
+	}
+	r.StateOps++
+	r.Tracef("config %v into a map (typed: %v) pre-filled with %d entries, invalid entry %d: %v", in, typed, nKept, bad, err)
+	if bad >= 0 && err == nil {
+		e.fail("validators-hold", "Unpack", nil,
+			"Unpack succeeded although the result breaks a validator of a field's tag: m.kept%d.n = 0 breaks min=1 (an entry the pre-filled map holds and the configuration does not mention; %d null settings, %d other settings for the map; typed map: %v)", bad, nNull, nSet, typed)
+	}
+	// (a null setting for a typed map builds a zero entry, which min=1 rejects: no verdict there)
+	if bad < 0 && err != nil && !(typed && nNull > 0) {
+		e.fail("success", "Unpack", nil, "Unpack of %v into a map pre-filled with valid entries failed: %v", in, err)
+	}
+	if bad >= 0 && err != nil && !containsPath(err.Error(), "'m") {
+		e.fail("error-names", "Unpack", nil, "Unpack failed (%v); the error does not name the field m that holds the invalid entry", err)
 	}
 }
